@@ -78,6 +78,7 @@ func Unmarshal(hash string, v interface{}) error {
 	var (
 		fragIdx, numGroupValues int
 		group                   *parse.GroupNode
+		groupReq                bool
 	)
 	numValues := len(tree.Fragments)
 	numReqValues := ti.NumReqValues
@@ -113,6 +114,11 @@ func Unmarshal(hash string, v interface{}) error {
 				return newUnmarshalError(group, ti, fi, "excessive fragment")
 			}
 			fragIdx++
+			numValues--
+			if groupReq {
+				numReqValues--
+				groupReq = false
+			}
 			group = nil
 		}
 		if fragIdx >= len(tree.Fragments) {
@@ -148,6 +154,9 @@ func Unmarshal(hash string, v interface{}) error {
 				// Single value is consumed when a grouped param is required
 				group = &parse.GroupNode{Values: []*parse.ValueNode{frag.(*parse.ValueNode)}}
 				numGroupValues = 1
+			}
+			if !fi.Opts.OmitEmpty {
+				groupReq = true
 			}
 			match := false
 			for _, value := range group.Values {
